@@ -631,7 +631,7 @@ SITES = [
     ("src/messages.rs", r"if slice_end < slice_start", 1, "read_message guard"),
     ("src/messages.rs", r"&buf\[\.\.buf\.len\(\) - 1\]", 1, "cursor read_string"),
     ("src/messages.rs", r"4 \* parse\.num_params as usize", 1, "Parse re-encoding"),
-    ("src/messages.rs", r"c = bytes\.get_u8\(\);", 2, "parse_params loops"),
+    ("src/messages.rs", r"None => Err\(Error::ClientBadStartup\),", 1, "parse_params: unterminated string is an error"),
     ("src/query_router.rs", r"cmp::min\(len - 5, self\.pool_settings\.regex_search_limit\)", 1, "comment routing segment"),
     ("src/query_router.rs", r"message_cursor\.read_string\(\)\.unwrap\(\)", 4, "try_execute_command + parse unwraps"),
     ("src/query_router.rs", r"_ => unreachable!\(\),\s*\}\)\s*\}", 1, "uniform format code"),
